@@ -492,4 +492,6 @@ def main(argv=None):
 
 
 if __name__ == "__main__":
-    sys.exit(main())
+    # run as lib.runner (not __main__) so that Violation etc. are the same classes the checks import
+    from lib.runner import main as _main
+    sys.exit(_main())
